@@ -161,7 +161,11 @@ pub fn enc_err(e: &ExecutionError) -> J {
         IntegerOverflow(op, a, b) => ("IntegerOverflow", vec![json!(op), enc(a), enc(b)]),
         other => {
             // ExecutionError is non_exhaustive: a variant added later is still an error outcome.
-            return json!({"err": "Other", "f": [format!("{other:?}")], "disp": other.to_string()});
+            // Its name (first identifier of the Debug rendering) is passed on so that the monitors can
+            // still tell an overflow / zero-division / missing-key / undeclared error from the rest.
+            let dbg = format!("{other:?}");
+            let name: String = dbg.chars().take_while(|c| c.is_alphanumeric() || *c == '_').collect();
+            return json!({"err": "Other", "name": name, "f": [dbg], "disp": other.to_string()});
         }
     };
     json!({"err": name, "f": fields, "disp": e.to_string()})
